@@ -38,7 +38,8 @@ def corpus(workdir, seed=0):
     import gen_corpus
     os.makedirs(workdir, exist_ok=True)
     items = []
-    for label, code in gen_corpus.gen(seed):
+    nrand = int(os.environ.get("VERIF_NRAND", "48"))
+    for label, code in gen_corpus.gen(seed) + gen_corpus.gen_opt(seed) + gen_corpus.gen_random(seed, nrand):
         h = hashlib.sha1(code.encode()).hexdigest()[:10]
         p = os.path.join(workdir, f"gen_{re.sub(r'[^A-Za-z0-9_]', '_', label)}_{h}.veryl")
         if not os.path.exists(p):
